@@ -23,8 +23,9 @@ GROUPS: dict[str, list[tuple[str, str]]] = {
                                                    "compile_to_dict_function", "CompiledExpression")],
     "jacobian": [("core/compiler.py", n) for n in ("compile_gradient", "_compile_vectorized_power_gradient",
                                                     "_compile_vectorized_unary_gradient")]
-                + [("core/autodiff.py", n) for n in ("compute_jacobian", "compile_jacobian", "_is_scaled_variable_pattern")],
-    "hessian": [("core/autodiff.py", "compute_hessian"), ("core/autodiff.py", "compile_hessian")],
+                + [("core/autodiff.py", n) for n in ("compile_jacobian", "_is_scaled_variable_pattern")],
+    # compute_jacobian / compute_hessian are translated (py2lean_symjac.py)
+    "hessian": [("core/autodiff.py", "compile_hessian")],
     # compute_degree, _compute_degree_cached, is_linear, is_quadratic, Expression.degree are translated (py2lean_degentry.py)
     "degree": [("analysis.py", "_estimate_tree_depth")],
     # extract_all_linear_coefficients, _try_extract_fast_binop, _vector_is_aligned are translated (py2lean_lpfast.py)
